@@ -200,4 +200,267 @@ theorem k_matrixRotate90_eq (m : WMat) :
         · intro v; gonorm
           rw [← e1, bit_natCast _ (y % 32) (by omega) (by omega), ior_natCast]
 
+/-! ### scans: `GetTopLeftOnBit`, `GetBottomRightOnBit` -/
+
+/-- `bit := 0; for (theBits << (31-bit)) == 0 { bit++ }` on a non-zero 32-bit word is the model's `lowBit` -/
+theorem lowBit_while {ρ : Type} (w : Nat) (hw0 : w ≠ 0) (hw : w < W32) (body : Int → Ctl Int ρ)
+    (hb : ∀ bit : Nat, bit ≤ 31 → body (bit : Int) =
+      if shl32 w (31 - bit) = 0 then .next ((bit + 1 : Nat) : Int) else .brk (bit : Int)) :
+    ∀ (n bit fuel : Nat), 1 ≤ n → bit + n = 32 → n ≤ fuel →
+      whileLoop body fuel (bit : Int) = .brk ((lowBitLoop n bit w : Nat) : Int) := by
+  intro n
+  induction n with
+  | zero => intro _ _ h; omega
+  | succ n ih =>
+    intro bit fuel _ hbn hf
+    obtain ⟨fuel, rfl⟩ : ∃ k, fuel = k + 1 := ⟨fuel - 1, by omega⟩
+    rw [whileLoop_succ, hb bit (by omega)]
+    unfold lowBitLoop
+    by_cases hz : shl32 w (31 - bit) = 0
+    · simp only [hz, if_true]
+      have hbit : bit ≠ 31 := by
+        intro h31; subst h31
+        unfold shl32 at hz
+        simp only [Nat.sub_self, Nat.shiftLeft_zero] at hz
+        rw [Nat.mod_eq_of_lt hw] at hz
+        exact hw0 hz
+      exact ih (bit + 1) fuel (by omega) (by omega) (by omega)
+    · simp only [hz, if_false]
+
+/-- `bit := 31; for (theBits >> bit) == 0 { bit-- }` on a non-zero 32-bit word is the model's `highBit` -/
+theorem highBit_while {ρ : Type} (w : Nat) (hw0 : w ≠ 0) (body : Int → Ctl Int ρ)
+    (hb : ∀ bit : Nat, bit ≤ 31 → body (bit : Int) =
+      if w >>> bit = 0 then .next ((bit - 1 : Nat) : Int) else .brk (bit : Int)) :
+    ∀ (n bit fuel : Nat), n = bit + 1 → bit ≤ 31 → n ≤ fuel →
+      whileLoop body fuel (bit : Int) = .brk ((highBitLoop n bit w : Nat) : Int) := by
+  intro n
+  induction n with
+  | zero => intro _ _ h; omega
+  | succ n ih =>
+    intro bit fuel hn hb31 hf
+    obtain ⟨fuel, rfl⟩ : ∃ k, fuel = k + 1 := ⟨fuel - 1, by omega⟩
+    rw [whileLoop_succ, hb bit hb31]
+    unfold highBitLoop
+    by_cases hz : w >>> bit = 0
+    · simp only [hz, if_true]
+      have hbit : bit ≠ 0 := by
+        intro h0; subst h0
+        simp only [Nat.shiftRight_zero] at hz
+        exact hw0 hz
+      exact ih (bit - 1) fuel (by omega) (by omega) (by omega)
+    · simp only [hz, if_false]
+
+/-- `for bitsOffset < len && bits[bitsOffset] == 0 { bitsOffset++ }` is `findIdx (· != 0)` -/
+theorem first_while {ρ : Type} (ws : List Nat) (body : Int → Ctl Int ρ)
+    (hb : ∀ k : Nat, body (k : Int) =
+      match ws[k]? with
+      | some w => if w = 0 then .next ((k + 1 : Nat) : Int) else .brk (k : Int)
+      | none => .brk (k : Int)) :
+    ∀ (n k fuel : Nat), k + n = ws.length → n < fuel →
+      whileLoop body fuel (k : Int) = .brk ((k + (ws.drop k).findIdx (fun w => w != 0) : Nat) : Int) := by
+  intro n
+  induction n with
+  | zero =>
+    intro k fuel hk hf
+    obtain ⟨fuel, rfl⟩ : ∃ j, fuel = j + 1 := ⟨fuel - 1, by omega⟩
+    rw [whileLoop_succ, hb k, List.getElem?_eq_none (by omega), List.drop_eq_nil_of_le (by omega)]
+    simp
+  | succ n ih =>
+    intro k fuel hk hf
+    obtain ⟨fuel, rfl⟩ : ∃ j, fuel = j + 1 := ⟨fuel - 1, by omega⟩
+    have hlt : k < ws.length := by omega
+    rw [whileLoop_succ, hb k, List.getElem?_eq_getElem hlt, List.drop_eq_getElem_cons hlt, List.findIdx_cons]
+    by_cases hz : ws[k] = 0
+    · simp only [hz, if_true, bne_self_eq_false, cond_false]
+      rw [ih (k + 1) fuel (by omega) (by omega)]
+      congr 2; omega
+    · have : (ws[k] != 0) = true := by simp [hz]
+      simp [hz, this]
+
+/-- what the regenerated scans return: `nil` (empty) or the two coordinates -/
+def expPt (r : Res (Option (List Nat))) : Res (List Int) :=
+  r.map (fun o => match o with | none => [] | some l => l.map Int.ofNat)
+
+when_kernel Gzx.Gen.K16b.matrixGetTopLeftOnBit in
+/-- `BitMatrix.GetTopLeftOnBit()` = `WMat.getTopLeftOnBit` (words below 2^32; fuel above `len(bits)+32`): first non-zero word,
+    `y = offset / rowSize`, `x = (offset % rowSize)*32 + lowest set bit`, `nil` for an empty matrix, the division panic for
+    `rowSize = 0` -/
+theorem k_matrixGetTopLeftOnBit_eq (m : WMat) (h32 : ∀ w ∈ m.words, w < W32) (fuel : Nat) (hf : m.words.length + 32 < fuel) :
+    Gen.K16b.matrixGetTopLeftOnBit fuel m.rowSize (words m.words) = expPt (WMat.getTopLeftOnBit m) := by
+  simp only [Gen.K16b.matrixGetTopLeftOnBit, WMat.getTopLeftOnBit, expPt, len_words]
+  rw [show (0 : Int) = ((0 : Nat) : Int) from rfl, first_while m.words _ ?_ m.words.length 0 fuel (by omega) (by omega)]
+  · simp only [brk_thenR, List.drop_zero, Nat.zero_add]
+    generalize hk : m.words.findIdx (fun w => w != 0) = k
+    by_cases hend : k = m.words.length
+    · have : ((k : Int) == (m.words.length : Int)) = true := by simp; omega
+      simp [this, hend, Except.map]
+    · have hne : ((k : Int) == (m.words.length : Int)) = false := by simp; omega
+      have hk' : k < m.words.length := by
+        have := @List.findIdx_le_length _ (fun w => w != 0) m.words; omega
+      simp only [hne, Bool.false_eq_true, if_false, List.getElem?_eq_getElem hk']
+      by_cases hr0 : m.rowSize = 0
+      · simp [hr0, GoM.div, Except.map]
+      · have hr0' : ¬ ((m.rowSize : Int) = 0) := by omega
+        simp only [GoM.div, GoM.mod, hr0, hr0', if_false, tryR_ok]
+        rw [idxR m.words k _ rfl]
+        simp only [wordAt, List.getElem?_eq_getElem hk']
+        have hnz : m.words[k] ≠ 0 := by
+          have := @List.findIdx_getElem _ (fun w => w != 0) m.words (by rw [hk]; exact hk')
+          simp only [hk] at this
+          simpa using this
+        rw [lowBit_while m.words[k] hnz (h32 _ (List.getElem_mem hk')) _ ?_ 32 0 fuel (by omega) (by omega) (by omega)]
+        · simp only [brk_thenR, Except.map, lowBit, List.map_cons, List.map_nil, Int.ofNat_eq_natCast]
+          gonorm
+          have e1 : (k : Int) % (m.rowSize : Int) * 32 + ((lowBitLoop 32 0 m.words[k] : Nat) : Int) =
+              ((k % m.rowSize * 32 + lowBitLoop 32 0 m.words[k] : Nat) : Int) := by
+            rw [Int.natCast_add, Int.natCast_mul, Int.natCast_emod]; rfl
+          have e2 : (k : Int) / (m.rowSize : Int) = ((k / m.rowSize : Nat) : Int) := by rw [Int.natCast_ediv]
+          rw [e1, e2]
+        · intro bit hbit
+          simp only [Gen.K16b.matrixGetTopLeftOnBit_body2]
+          have e1 : wrap 64 (31 - (bit : Int)) = ((31 - bit : Nat) : Int) := by gonorm; omega
+          have e2 : wrap 64 ((bit : Int) + 1) = ((bit + 1 : Nat) : Int) := by gonorm; omega
+          rw [e1, e2, ishl_natCast, wrap_natCast]
+          have e3 : (m.words[k] <<< (31 - bit)) % 2 ^ 32 = shl32 m.words[k] (31 - bit) := rfl
+          rw [e3]
+          by_cases hz : shl32 m.words[k] (31 - bit) = 0
+          · simp [hz]
+          · have : ((shl32 m.words[k] (31 - bit) : Int) == 0) = false := by simp; omega
+            simp [hz, this]
+  · intro k
+    simp only [Gen.K16b.matrixGetTopLeftOnBit_body1, len_words]
+    by_cases hk : k < m.words.length
+    · have : decide ((k : Int) < (m.words.length : Int)) = true := by simp; omega
+      simp only [this, if_true, List.getElem?_eq_getElem hk]
+      rw [idxC m.words k _ rfl]
+      simp only [wordAt, List.getElem?_eq_getElem hk]
+      by_cases hz : m.words[k] = 0
+      · simp [hz]
+      · have : ((m.words[k] : Int) == 0) = false := by simp; omega
+        simp [hz, this]
+    · have : decide ((k : Int) < (m.words.length : Int)) = false := by simp; omega
+      simp only [this, Bool.false_eq_true, if_false, List.getElem?_eq_none (by omega : m.words.length ≤ k)]
+
+theorem lastNonzero_snoc (l : List Nat) (x : Nat) : ∀ i, WMat.lastNonzero (l ++ [x]) i =
+    if x != 0 then some (i + l.length, x) else WMat.lastNonzero l i := by
+  induction l with
+  | nil => intro i; simp [WMat.lastNonzero]
+  | cons w l ih =>
+    intro i
+    simp only [List.cons_append, WMat.lastNonzero, ih (i + 1), List.length_cons]
+    by_cases hx : (x != 0) = true
+    · simp only [hx, if_true]; congr 2; omega
+    · simp only [hx, Bool.false_eq_true, if_false]
+
+theorem lastNonzero_spec (l : List Nat) : ∀ (j i w : Nat), WMat.lastNonzero l j = some (i, w) →
+    j ≤ i ∧ l[i - j]? = some w ∧ w ≠ 0 := by
+  induction l with
+  | nil => intro j i w h; simp [WMat.lastNonzero] at h
+  | cons x l ih =>
+    intro j i w h
+    simp only [WMat.lastNonzero] at h
+    cases hr : WMat.lastNonzero l (j + 1) with
+    | some r =>
+      rw [hr] at h
+      simp only [Option.some.injEq] at h
+      subst h
+      obtain ⟨h1, h2, h3⟩ := ih (j + 1) i w hr
+      refine ⟨by omega, ?_, h3⟩
+      rw [show i - j = (i - (j + 1)) + 1 by omega, List.getElem?_cons_succ]; exact h2
+    | none =>
+      rw [hr] at h
+      simp only [] at h
+      by_cases hx : (x != 0) = true
+      · simp only [hx, if_true, Option.some.injEq, Prod.mk.injEq] at h
+        obtain ⟨rfl, rfl⟩ := h
+        exact ⟨Nat.le_refl _, by simp, by simpa using hx⟩
+      · simp [hx] at h
+
+/-- `bitsOffset := len-1; for bitsOffset >= 0 && bits[bitsOffset] == 0 { bitsOffset-- }` is the model's `lastNonzero` -/
+theorem last_while {ρ : Type} (ws : List Nat) (body : Int → Ctl Int ρ)
+    (hneg : body (-1) = .brk (-1))
+    (hb : ∀ k : Nat, k < ws.length → body (k : Int) = if ws[k]! = 0 then .next ((k : Int) - 1) else .brk (k : Int)) :
+    ∀ (n fuel : Nat), n ≤ ws.length → n < fuel →
+      whileLoop body fuel ((n : Int) - 1) =
+        .brk (match WMat.lastNonzero (ws.take n) 0 with | none => -1 | some (i, _) => (i : Int)) := by
+  intro n
+  induction n with
+  | zero =>
+    intro fuel _ hf
+    obtain ⟨fuel, rfl⟩ : ∃ j, fuel = j + 1 := ⟨fuel - 1, by omega⟩
+    rw [whileLoop_succ, show ((0 : Nat) : Int) - 1 = -1 by omega, hneg]
+    simp [WMat.lastNonzero]
+  | succ n ih =>
+    intro fuel hn hf
+    obtain ⟨fuel, rfl⟩ : ∃ j, fuel = j + 1 := ⟨fuel - 1, by omega⟩
+    have hlt : n < ws.length := by omega
+    rw [whileLoop_succ, show ((n + 1 : Nat) : Int) - 1 = (n : Int) by omega, hb n hlt,
+      List.take_succ_eq_append_getElem hlt, lastNonzero_snoc]
+    have hget : ws[n]! = ws[n] := by simp [hlt]
+    rw [hget]
+    by_cases hz : ws[n] = 0
+    · have : (ws[n] != 0) = false := by simp [hz]
+      simp only [hz, if_true, this, Bool.false_eq_true, if_false]
+      have := ih fuel (by omega) (by omega)
+      rw [hz] at *
+      exact this
+    · have : (ws[n] != 0) = true := by simp [hz]
+      simp [hz, this, Nat.min_eq_left (by omega : n ≤ ws.length)]
+
+when_kernel Gzx.Gen.K16b.matrixGetBottomRightOnBit in
+/-- `BitMatrix.GetBottomRightOnBit()` = `WMat.getBottomRightOnBit` (fuel above `len(bits)+32`): last non-zero word,
+    `y = offset / rowSize`, `x = (offset % rowSize)*32 + highest set bit`, `nil` for an empty matrix -/
+theorem k_matrixGetBottomRightOnBit_eq (m : WMat) (fuel : Nat) (hf : m.words.length + 32 < fuel) :
+    Gen.K16b.matrixGetBottomRightOnBit fuel m.rowSize (words m.words) = expPt (WMat.getBottomRightOnBit m) := by
+  simp only [Gen.K16b.matrixGetBottomRightOnBit, WMat.getBottomRightOnBit, expPt, len_words]
+  rw [last_while m.words _ ?_ ?_ m.words.length fuel (Nat.le_refl _) (by omega), List.take_length]
+  · simp only [brk_thenR]
+    cases hl : WMat.lastNonzero m.words 0 with
+    | none => simp [Except.map]
+    | some p =>
+      obtain ⟨k, w⟩ := p
+      obtain ⟨_, hget, hw0⟩ := lastNonzero_spec m.words 0 k w hl
+      simp only [Nat.sub_zero] at hget
+      have hk' : k < m.words.length := (List.getElem?_eq_some_iff.mp hget).1
+      have hnn : decide ((k : Int) < 0) = false := by simp
+      simp only [hnn, Bool.false_eq_true, if_false]
+      by_cases hr0 : m.rowSize = 0
+      · simp [hr0, GoM.div, Except.map]
+      · have hr0' : ¬ ((m.rowSize : Int) = 0) := by omega
+        simp only [GoM.div, GoM.mod, hr0, hr0', if_false, tryR_ok]
+        rw [idxR m.words k _ rfl]
+        simp only [wordAt, hget]
+        rw [show (31 : Int) = ((31 : Nat) : Int) from rfl,
+          highBit_while w hw0 _ ?_ 32 31 fuel (by omega) (by omega) (by omega)]
+        · simp only [brk_thenR, Except.map, highBit, List.map_cons, List.map_nil, Int.ofNat_eq_natCast]
+          gonorm
+          have e1 : (k : Int) % (m.rowSize : Int) * 32 + ((highBitLoop 32 31 w : Nat) : Int) =
+              ((k % m.rowSize * 32 + highBitLoop 32 31 w : Nat) : Int) := by
+            rw [Int.natCast_add, Int.natCast_mul, Int.natCast_emod]; rfl
+          have e2 : (k : Int) / (m.rowSize : Int) = ((k / m.rowSize : Nat) : Int) := by rw [Int.natCast_ediv]
+          rw [e1, e2]
+        · intro bit hbit
+          simp only [Gen.K16b.matrixGetBottomRightOnBit_body2]
+          rw [ishr_natCast]
+          by_cases hz : w >>> bit = 0
+          · have hb0 : bit ≠ 0 := by
+              intro h0; subst h0; simp only [Nat.shiftRight_zero] at hz; exact hw0 hz
+            have e2 : wrap 64 ((bit : Int) - 1) = ((bit - 1 : Nat) : Int) := by gonorm; omega
+            simp [hz, e2]
+          · have : (((w >>> bit : Nat) : Int) == 0) = false := beq_eq_false_iff_ne.mpr (Int.natCast_ne_zero.mpr hz)
+            simp only [this, Bool.false_eq_true, if_false, hz]
+  · simp only [Gen.K16b.matrixGetBottomRightOnBit_body1]
+    simp
+  · intro k hk
+    simp only [Gen.K16b.matrixGetBottomRightOnBit_body1]
+    have : decide ((k : Int) ≥ 0) = true := by simp
+    simp only [this, if_true]
+    rw [idxC m.words k _ rfl]
+    have hget : m.words[k]! = m.words[k] := by simp [hk]
+    simp only [wordAt, List.getElem?_eq_getElem hk, hget]
+    by_cases hz : m.words[k] = 0
+    · simp [hz]
+    · have : ((m.words[k] : Int) == 0) = false := by simp; omega
+      simp [hz, this]
+
 end Gzx.Obligations.K16bMat
